@@ -154,6 +154,11 @@ void PositiveVisitor::bvisit(const Add &x)
         can_be_false = false;
     } else if (coef->is_negative()) {
         can_be_true = false;
+    } else if (not coef->is_zero()) {
+        // a constant term that is neither positive, negative nor zero
+        // (e.g. I): the sign of the sum cannot be read off its terms
+        is_positive_ = tribool::indeterminate;
+        return;
     }
     NegativeVisitor neg_visitor(assumptions_);
     for (const auto &p : dict) {
